@@ -273,6 +273,7 @@ func checkC11(c *Ctx) {
 			continue
 		}
 		for _, fn := range ctor.AnonFuncs {
+			fn := p.View(fn) // the comparison loop may live in a helper of the package
 			nB++
 			key := pkg + ".BearerTokenAuthorizer$closure"
 			var cmp, empty []Edge
